@@ -555,7 +555,9 @@ var c20Ports = []string{"", ":443", ":80"}
 var c20QF = []string{"", "?start=abc", "#frag", "?a=1&b=%20#x%41"}
 
 // segments: usernames / tokens incl. empty, percent-escapes, Unicode, upper case, 'joinchat'
-var c20Segs = []string{"", "durov", "BotFather", "joinchat", "AAAAAEkk2WdoDrB4-Q_tok", "%41bc", "a%2Fb", "Äb", "ÉCOLEİ", "JoinChat", "a b", "%zz", "%e4%b8%ad", "%ff", "x%", "中文", "a:b", "@id1234", "*"}
+var c20Segs = []string{"", "durov", "BotFather", "joinchat", "AAAAAEkk2WdoDrB4-Q_tok", "%41bc", "a%2Fb", "Äb", "ÉCOLEİ", "JoinChat", "a b", "%zz", "%e4%b8%ad", "%ff", "x%", "中文", "a:b", "@id1234", "*",
+	// near misses of the literal path item: longer, shorter, other case, escaped
+	"joinchats", "joinchat2", "joinchat_ru", "xjoinchat", "joincha", "JOINCHAT", "joinchat%20", "joinchat.", "%6aoinchat", "joinchat%2F"}
 
 var c20BasePaths = []string{"", "/", "/durov", "/BotFather", "/joinchat/AAAAAEkk2WdoDrB4-Q_tok", "/joinchat/", "/joinchat", "/a/b/c", "/ÄB%43", "//durov", "/durov/"}
 
@@ -672,7 +674,20 @@ func c20Gen(g *G) {
 			}
 			return "A" + string(b) + "Z"
 		}
-		return pick([]string{"durov", "joinchat", "BotFather", ""})
+		// a near miss of an ordinary segment: one character added in front or behind, or the last one dropped
+		base := pick([]string{"durov", "joinchat", "joinchat", "BotFather", ""})
+		extra := string("abcxyzABC019_-.~%+ "[r.Intn(19)])
+		switch r.Intn(6) {
+		case 0:
+			return base + extra
+		case 1:
+			return extra + base
+		case 2:
+			if base != "" {
+				return base[:len(base)-1]
+			}
+		}
+		return base
 	}
 	nSample := g.N(3000, 300000)
 	for i := 0; i < nSample; i++ {
